@@ -153,18 +153,28 @@ impl<'l> CelCompiler<'l> {
             let false_clause_bytecode = false_clause_node.into_bytecode();
 
             let after_true_clause = self.new_label();
+            let false_clause_label = self.new_label();
             let end_label = self.new_label();
 
+            // The condition is reduced to its truthiness (TEST keeps an error as is), the
+            // same way the constant-folded path above treats it. A condition that failed
+            // is neither true nor false: NOT leaves the error untouched, so it falls
+            // through both conditional jumps and becomes the result of the expression.
             CompiledProg {
                 inner: NodeValue::Bytecode(
                     expr_node
                         .into_bytecode()
                         .into_iter()
                         .chain(
-                            [PreResolvedCodePoint::JmpCond {
-                                when: JmpWhen::False,
-                                label: after_true_clause,
-                            }]
+                            [
+                                ByteCode::Test.into(),
+                                ByteCode::Dup.into(),
+                                PreResolvedCodePoint::JmpCond {
+                                    when: JmpWhen::False,
+                                    label: after_true_clause,
+                                },
+                                ByteCode::Pop.into(),
+                            ]
                             .into_iter(),
                         )
                         .chain(true_clause_bytecode.into_iter())
@@ -172,6 +182,15 @@ impl<'l> CelCompiler<'l> {
                             [
                                 PreResolvedCodePoint::Jmp { label: end_label },
                                 PreResolvedCodePoint::Label(after_true_clause),
+                                ByteCode::Not.into(),
+                                ByteCode::Dup.into(),
+                                PreResolvedCodePoint::JmpCond {
+                                    when: JmpWhen::True,
+                                    label: false_clause_label,
+                                },
+                                PreResolvedCodePoint::Jmp { label: end_label },
+                                PreResolvedCodePoint::Label(false_clause_label),
+                                ByteCode::Pop.into(),
                             ]
                             .into_iter(),
                         )
